@@ -191,7 +191,11 @@ def verify_function(repo, registry, qualname, only_variant=None):
                     t = interp.veq(got, exp)
                 ctx.oblige(f"{pre}/sets[self.{fname}]", t, kind="post", assume_after=False, **meta)
             if c.returns_expr is not None and "assume_only" not in c.returns_expr.kw:
-                exp = c.eval_spec(interp, c.returns_expr.expr, spec_env)
+                interp.spec_fork_ok = True
+                try:
+                    exp = c.eval_spec(interp, c.returns_expr.expr, spec_env)
+                finally:
+                    interp.spec_fork_ok = False
                 ctx.oblige(f"{pre}/{c.returns_expr.name}", interp.veq(val, exp), kind="post", assume_after=False,
                            extra_hyps=using(c.returns_expr), **meta)
             for cl in c.ensures:
